@@ -103,7 +103,7 @@ def programs(ctx):
     for name, p in own_corpus():
         out.append(("corpus17:" + name, p))
     shapes = ["cross", "cross", "cross", "multi", "repeat", "merge", "nest"]
-    n = 49 if ctx.quick else 420
+    n = 210 if ctx.quick else 2100
     for i in range(n):
         sh = shapes[i % len(shapes)]
         feats = {}
@@ -146,6 +146,39 @@ def in_domain(ds, app, seq):
             if a != (v >= 0) or v >= spec[0]:
                 return False
     return True
+
+
+def random_complete(ctx, ds, app):
+    """A random candidate of the domain whose derived cells follow the documented tables (Sem.derive_row):
+    basic factors random per sustain group, derived factors the first accepting level ('' where none accepts,
+    which leaves the domain)."""
+    rng = ctx.rng
+    Tn = ds.T
+    rows = []
+    for fi, spec in enumerate(ds.sem[1]):
+        nl, su, win = spec
+        if win is None:
+            groups = [rng.randrange(nl) for _ in range(-(-Tn // su))]
+            rows.append([groups[t // su] for t in range(Tn)])
+            continue
+        deps, width, stride, start, table = win
+        row = []
+        for t in range(Tn):
+            if not app[fi][t]:
+                row.append(-1)
+                continue
+            t0 = (t // su) * su
+            args = []
+            for d in deps:
+                col = []
+                for j in range(width):
+                    back = (width - 1 - j) * su
+                    col.append(rows[d][t0 - back] if back <= t0 and d < len(rows) else -1)
+                args.append(col)
+            hit = [l for l in range(nl) if args in table[l]]
+            row.append(hit[0] if hit else -1)
+        rows.append(row)
+    return rows
 
 
 def perturbations(ctx, ds, app, seq, budget):
@@ -275,7 +308,11 @@ def cand_wire(block, sample):
                     li = j
                     break
             row.append(li)
-        ents.append([fi, row])
+        # the same factor object can sit at several positions of block.design (weight desugaring lists a
+        # rebuilt derived factor twice): the dictionary answers for every position holding that object
+        for i, f in enumerate(design):
+            if f is design[fi]:
+                ents.append([i, row])
     return ents
 
 
@@ -302,13 +339,17 @@ def classify(program, block, ds, seq, valid, real):
         names = [str(f.name.name) if isinstance(f.name, HiddenName) else str(f.name) for f in block.design]
         feat = ""
         if real[1] == "KeyError":
-            if any(isinstance(f.name, HiddenName) for f in block.design):
+            visible = [n for f, n in zip(block.design, names) if not isinstance(f.name, HiddenName)]
+            if len(visible) != len(names):
                 feat = ":hidden-factor"
-            if len(set(n for f, n in zip(block.design, names) if not isinstance(f.name, HiddenName))) != \
-                    len([f for f in block.design if not isinstance(f.name, HiddenName)]):
+            elif len(set(visible)) != len(visible):
                 feat = ":duplicate-factor"
         if real[1] == "IndexError":
             feat = ":window-overrun"
+        if real[1] == "ValueError":
+            flat_cr = [f for c in block.crossings for f in c]
+            if any(flat_cr.count(f) > 1 for f in flat_cr):
+                feat = ":factor-in-two-crossings"
         return "mismatch:raises:%s%s" % (real[1], feat)
     if valid:
         if real[0] == "trialcount":
@@ -322,21 +363,48 @@ def classify(program, block, ds, seq, valid, real):
             return "mismatch:%s%s" % (cls, su or ":valid-flagged")
         if fs:
             return "mismatch:factors:valid-flagged"
+        if code_chunks(block) != doc_chunks(block, ds):
+            # the crossing geometry itself (chunk length / multiplicities: properties C16, C23) differs from the documentation
+            return "mismatch:crossing:valid-flagged:chunk-differs"
         return "mismatch:crossing:valid-flagged"
     # invalid but accepted: which part of the reference semantics rejects
     why = designrun.oracle_why(ds, seq)
     try:
         parts = common.parse_sexp(why)
+        from sweetpea._internal.cross_block import AlignmentMode
+        feat = ""
+        if block.alignment == AlignmentMode.POST_PREAMBLE and block._alignment_preamble > max(block.preamble_sizes + [0]):
+            # an uncrossed derived factor with a start delays every crossing in the code, not in the documentation
+            feat = ":alignment-preamble"
         if not all(x == "true" for x in parts[0]):
             return "mismatch:accepts-invalid:factor"
         if not all(x == "true" for x in parts[1]):
-            return "mismatch:accepts-invalid:crossing"
+            return "mismatch:accepts-invalid:crossing" + feat
         for ok, c in zip(parts[2], ds.sem[3]):
             if ok != "true":
-                return "mismatch:accepts-invalid:%s" % c[0][0].s
+                return "mismatch:accepts-invalid:%s%s" % (c[0][0].s, feat)
     except Exception:  # noqa
         pass
     return "mismatch:accepts-invalid"
+
+
+def code_chunks(block):
+    """(first trial, chunk length, sustain x weight) per crossing as the checker uses them."""
+    from sweetpea._internal.cross_block import AlignmentMode
+    out = []
+    for i, c in enumerate(block.crossings):
+        start = block.preamble_size() if block.alignment is AlignmentMode.POST_PREAMBLE else block.preamble_sizes[i]
+        w = block.crossing_weight(c)
+        out.append((start, block.crossing_sizes[i] * w, w * block.crossing_sustain_count(c)))
+    return out
+
+
+def doc_chunks(block, ds):
+    """The same triple from the documentation side (mult of a combination of weight-1 levels = cw x sustain)."""
+    out = []
+    for c, cd in zip(ds.sem[2], ds.block.crossings):
+        out.append((c[1], c[2], cd["cw"] * cd["su"]))
+    return out
 
 
 # --------------------------------------------------------------------------- one program
@@ -358,7 +426,11 @@ def prepare(ctx, res, stats, name, program):
         except Exception as e:  # noqa
             stats["programs:flat-failed:" + type(e).__name__] += 1
             return None
-    return {"name": name, "program": program, "ds": ds, "block": blk, "flat": w}
+    with ir.quiet():
+        T_real = blk.trials_per_sample()
+    accepted = not any("WARNING" not in e for e in blk.errors)   # show_errors() would make every sampler refuse
+    stats["programs:accepted" if accepted else "programs:show_errors-refuses"] += 1
+    return {"name": name, "program": program, "ds": ds, "block": blk, "flat": w, "accepted": accepted, "T_real": T_real}
 
 
 def run(ctx, res):
@@ -404,6 +476,23 @@ def run(ctx, res):
                 if key not in seen:
                     seen.add(key)
                     cands.append((kind, q))
+        # random candidates whose derived cells are right (mostly invalid through crossings / constraints)
+        nrand = (40 if ctx.quick else 80) if valid else (80 if ctx.quick else 160)
+        rbase = []
+        for _ in range(nrand):
+            q = random_complete(ctx, ds, app)
+            key = json.dumps(q)
+            if key not in seen:
+                seen.add(key)
+                cands.append(("random-complete", q))
+                rbase.append(q)
+        if not valid:
+            for q in rbase[:3]:
+                for kind, q2 in perturbations(ctx, ds, app, q, budget_pert // 2):
+                    key = json.dumps(q2)
+                    if key not in seen:
+                        seen.add(key)
+                        cands.append((kind, q2))
         pr["cands"] = cands
     # one model call: oracle verdicts and model verdicts
     lines = []
@@ -458,7 +547,13 @@ def run(ctx, res):
             dom = in_domain(ds, pr["app"], q)
             stats["domain:" + ("in" if dom else "out")] += 1
             real_clean = (real == ("lists", [], [], []))
-            if dom:
+            if dom and not pr["accepted"]:
+                stats["search:skipped-design-not-accepted"] += 1
+            elif dom and pr["T_real"] != ds.T:
+                # the trial count itself is property C16; a documented-valid sequence of another length is
+                # necessarily flagged 'trial_count'
+                stats["search:skipped-trial-count-differs(C16)"] += 1
+            elif dom:
                 stats["oracle:" + ("valid" if valid else "invalid")] += 1
                 bad = (real_clean != valid) and not (real[0] == "error" and not valid)
                 if real[0] == "error" and not valid:
@@ -489,6 +584,8 @@ def run(ctx, res):
             % (len(corr_bad), name, json.dumps(smp), why),
             {"layer": "L7:mismatch-verdict", "theorems": ["C17_*"], "program": program, "sample": smp, "why": why},
             failing_input=False))
+    res.extra["corr_mismatch_examples"] = [{"program_name": n, "program": p, "sample": smp, "why": why}
+                                           for n, p, smp, why in corr_bad[:5]]
     res.extra["distribution"] = dict(sorted(stats.items()))
     res.extra["programs_used"] = len(progs)
     res.notes.append("search judged by Sem.valid_b on doc_sem(program); exceptions on invalid candidates are counted, not violations")
